@@ -328,7 +328,10 @@ func (dr *dirRepo) IndexInsert(desc types.Descriptor, opts ...types.IndexOpt) er
 	}
 	dr.mu.Lock()
 	defer dr.mu.Unlock()
-	_ = dr.indexLoad(false, true)
+	// an index that cannot be loaded is not changed and saved, a missing index is created
+	if err := dr.indexLoad(false, true); err != nil && !errors.Is(err, types.ErrNotFound) {
+		return err
+	}
 	dr.index.AddDesc(desc, opts...)
 	dr.log.Debug("index entry added", "repo", dr.name, "desc", desc)
 	return dr.indexSave(true)
@@ -341,7 +344,9 @@ func (dr *dirRepo) IndexRemove(desc types.Descriptor) error {
 	}
 	dr.mu.Lock()
 	defer dr.mu.Unlock()
-	_ = dr.indexLoad(false, true)
+	if err := dr.indexLoad(false, true); err != nil && !errors.Is(err, types.ErrNotFound) {
+		return err
+	}
 	dr.index.RmDesc(desc)
 	dr.log.Debug("index entry removed", "repo", dr.name, "desc", desc)
 	return dr.indexSave(true)
